@@ -38,14 +38,14 @@ theorem send_after_close_rejected (progs : List (List Op)) (sched : List Tid) :
   have := hI.one
   omega
 
-/-- What `late` records: the first step of a send reads `closed` into the ghost flag (and the
+/-- What `late` records: the first step of a send reads `closed` into the ghost flag (together with the ids of the sends that have already returned `Ok`; the
 send either returns `SendErr` at once because of the status, or goes on to `admit.load`). -/
 theorem first_step_records_closed (s : Shared) (id : Nat) (late bf : Bool) (ops : List Op)
-    (rest : List Frame) :
-    stepThread s (⟨.sStatus, id, late, ops, bf⟩ :: rest) =
+    (sk : List Nat) (rest : List Frame) :
+    stepThread s (⟨.sStatus, id, late, ops, bf, sk⟩ :: rest) =
       if s.status ≥ stDraining then
-        some ({ s with rets := s.rets ++ [⟨.send, id, .sendErr, s.word.closed⟩] }, rest)
-      else some (s, ⟨.aLoad, id, s.word.closed, ops, bf⟩ :: rest) := by
+        some ({ s with rets := s.rets ++ [⟨.send, id, .sendErr, s.word.closed, okIds s.rets⟩] }, rest)
+      else some (s, ⟨.aLoad, id, s.word.closed, ops, bf, okIds s.rets⟩ :: rest) := by
   simp only [stepThread, finish, kindOf]
 
 /-- (2) The admission count is exactly the number of tickets held: frames between a successful
@@ -158,9 +158,9 @@ state in any thread — changes nothing of the shared state except logging its `
 theorem repeated_drain_changes_nothing (s : Shared) (parent : Frame) (rest : List Frame)
     (hm : s.word.marker = true) (hc : s.word.closed = true) (hst : stDraining ≤ s.status) :
     ∃ s1 st1 s2 st2,
-      stepThread s (⟨.dClose, 0, false, [], false⟩ :: parent :: rest) = some (s1, st1) ∧
+      stepThread s (⟨.dClose, 0, false, [], false, []⟩ :: parent :: rest) = some (s1, st1) ∧
       stepThread s1 st1 = some (s2, st2) ∧
-      stepThread s2 st2 = some ({ s with rets := s.rets ++ [⟨.drain, 0, .ok, false⟩] }, parent :: rest) := by
+      stepThread s2 st2 = some ({ s with rets := s.rets ++ [⟨.drain, 0, .ok, false, []⟩] }, parent :: rest) := by
   obtain ⟨⟨wc, wm, wn⟩, status, queue, rxOpen, rxStopped, sbo, enq, deqd, handled, flushed, dex, mdrop,
     nextId, rets⟩ := s
   simp only at hm hc hst
@@ -217,7 +217,7 @@ def exampleProgs : List (List Op) := [[.send [] false], [.drain], [.send [] fals
 
 example : (run (init exampleProgs) exampleSched).sh.enq = [.msg 0, .drain] := by decide
 example : (run (init exampleProgs) exampleSched).sh.rets =
-    [⟨.drain, 0, .ok, false⟩, ⟨.send, 1, .sendErr, true⟩, ⟨.send, 0, .ok, false⟩] := by decide
+    [⟨.drain, 0, .ok, false, []⟩, ⟨.send, 1, .sendErr, true, []⟩, ⟨.send, 0, .ok, false, []⟩] := by decide
 example : (run (init exampleProgs) exampleSched).sh.word = ⟨true, true, 0⟩ ∧
     quiescent (run (init exampleProgs) exampleSched) = true := by decide
 /-- the re-entrant shape of `drain_defers_marker_for_reentrant_admitted_send`: the drain runs
@@ -225,7 +225,7 @@ inside `box_message` while the ticket is held, returns `Ok` without marker, and 
 emitted by the ticket drop after the enqueue. -/
 example : (run (init [[.send [.drain] false]]) (List.replicate 15 (.t 0))).sh.enq = [.msg 0, .drain]
     ∧ (run (init [[.send [.drain] false]]) (List.replicate 15 (.t 0))).sh.rets =
-      [⟨.drain, 0, .ok, false⟩, ⟨.send, 0, .ok, false⟩] := by decide
+      [⟨.drain, 0, .ok, false, []⟩, ⟨.send, 0, .ok, false, []⟩] := by decide
 
 /-- the hypothesis of `oracle_holds_of_model` is satisfiable: the example, after the receiver ran -/
 example : endState (run (init exampleProgs) (exampleSched ++ [.recv, .recv, .setStatus 5, .rxClose, .rxFlush])) = true := by
